@@ -22,7 +22,7 @@ type Seed struct {
 	Find    string   `json:"find"`
 	Replace string   `json:"replace"`
 	Append  string   `json:"append,omitempty"` // text added at the end of the file (new helper functions)
-	Expect  string   `json:"expect"` // substring of the failing obligation key
+	Expect  string   `json:"expect"`           // substring of the failing obligation key
 	Note    string   `json:"note,omitempty"`
 	// Benign seeds are behaviour-preserving edits: the rules must stay silent.
 	Benign bool `json:"benign,omitempty"`
